@@ -16,6 +16,14 @@
      fs.info() presents them to the implementation (mtime is the float st_mtime; the harness
      maps a float injectively to N by its IEEE-754 bit pattern).  The *clock / inode oracle* is
      explicit: every mutating operation carries the token the environment gives the file.
+     A path that is a symbolic link has the token and the bytes of the file it RESOLVES to: stat
+     information follows links (fsutils._localfs_info, LocalFileSystem.info(str)); writes / touches of the
+     link's target are Write / Touch of the path (environment hypothesis, exercised by the harness with
+     symlinked files in the staged directory).
+   * hashing is PER PATH: [get_hashes] attaches to every missed path the digest of that path's bytes
+     ([answer_of], [save_miss]); the thread pool of _hash_files (submission order, completion order of
+     imap_unordered) has no counterpart in the model because the answer must not depend on it - the
+     harness forces pool hashing with out-of-order completion and compares.
    * _checksum(info) = str(int(tokenize([ino, mtime, size]), 16)) is modelled as an INJECTIVE
      pairing: a row keeps the triple itself ([r_tok]).  (tokenize is md5 over the printed list;
      injectivity is assumed up to md5 collisions on those short strings, and the harness
